@@ -567,14 +567,26 @@ def gen_case(rng, chk, kind, prec, fixed=None, mixed=False):
     elif kind == "sv":
         ntags = rng.choice([0, 0, 1, 2, 3]) if not mixed else rng.choice([1, 2, 2, 3])
         nm = min(nmax, 3)
-        terms = gen_terms(rng, m, nm, ntags, rng.randint(2, 3), rng.random() < 0.5, UsedSet(), mixed)
-        if len(terms) < 2:
+        # a vector of ONE component with a non-trivial coefficient: `Simulator.probs(StateVector)` dispatches it to
+        # `probs(BasicState)`, `probability(StateVector, ·)` still evolves it (Model/C03Entry.lean)
+        one = rng.random() < 0.25
+        terms = gen_terms(rng, m, nm, ntags, 1 if one else rng.randint(2, 3), rng.random() < 0.5, UsedSet(), mixed)
+        if one and len(terms) == 1:
+            if terms[0]["coef"] == ["1", "0"]:
+                terms[0]["coef"] = ["-2/3", "1/2"]
+        elif len(terms) < 2:
             terms = [{"coef": ["1", "0"], "state": [[0]] + [[] for _ in range(m - 1)]},
                      {"coef": ["1/2", "1"], "state": [[] for _ in range(m - 1)] + [[0]]}]
-        if rng.random() < 0.25:
+        if len(terms) >= 2 and rng.random() < 0.25:
             weaken(rng, terms)
         case["members"] = [{"w": "1", "terms": terms}]
         case["outs"] = gen_outs(rng, m, [t["state"] for t in terms], 5)
+        # occupations asked of `Simulator.probability(StateVector, BasicState)`: outcomes of the photon numbers present
+        # (among them impossible ones when the circuit leaves modes untouched) and one of another photon number
+        ns = sorted(set(sum(len(x) for x in t["state"]) for t in terms))
+        pool = [list(o) for n in ns for o in all_states(m, n)]
+        rng.shuffle(pool)
+        case["pouts"] = pool[:8] + [list(rng.choice(all_states(m, max(ns) + 1)))]
     elif kind == "svd":
         k = rng.randint(2, 5)
         superposed = rng.random() < 0.5
@@ -753,7 +765,7 @@ def lean_request(case, u):
         return dict(base, op="bs", state=real_state(st), outs=[real_state(o) for o in case.get("outs", [])])
     if kind == "sv":
         return dict(base, op="sv", terms=lean_members(case, False)[0]["terms"],
-                    outs=[real_state(o) for o in case["outs"]], cut2=core.rat(CUT2))
+                    outs=[real_state(o) for o in case["outs"]], cut2=core.rat(CUT2), pouts=case.get("pouts", []))
     if kind == "svd":
         if case["prec"] == "default":
             return dict(base, op="svd", members=lean_members(case, True), prec=core.rat(DEFAULT_PREC),
@@ -1457,6 +1469,58 @@ def judge_sv(chk, case, rep, sim, circuit, u, record):
         e = float(exact[tuple(t)])
         if abs(o - e) > core.TOL * (1 + abs(e)) + ploc.get(tuple(t), 0.0) + 2 * slack:
             record("sv-probability", f"Simulator.probability({sv}, {t}) = {o!r}, expected {e!r}", spec_ok, prop_linear())
+            break
+    # the entry points that only dispatch (Model/C03Entry.lean, Props/C03 section 17): `probs(StateVector)` with its
+    # one-component branch against `probsSVentry`, `probability(StateVector, BasicState)` against `probabilitySV` for
+    # the requested occupations (possible, impossible, another photon number; plain and annotated output objects)
+    # (exactly the specification for an exactly unitary matrix — theorem probsSVentry_eq_spec; the reported matrix is
+    # unitary up to rounding, and both branches divide by the OUTPUT mass: agreement to 1e-9)
+    ent, spc = exact_dist(rep["entry"]), exact_dist(rep["spec"])
+    if not rep["entry_is_spec"] and any(abs(float(ent.get(k, 0) - spc.get(k, 0))) > 1e-9 for k in set(ent) | set(spc)):
+        raise Bad("model-internal", "probsSVentry differs from the specification probsSV")
+    if (rep["entryBranch"] == "single") != (len(sv) == 1):
+        raise Bad("harness", "the model and the native container count the components differently")
+    chk.branch("sv-one-component" if len(sv) == 1 else "sv-several-components")
+    if len(sv) == 1 and len(tags_of(terms[0]["state"])) >= 2:
+        chk.branch("sv-one-component-multi-tag")
+
+    def prop_entry(t=None):
+        """on the real code, without the model: probs(ψ) = the numpy specification's distribution, probability(ψ, t) =
+        probs(ψ)[t], and a one-component ψ = c·|s⟩ gives what the basis state |s⟩ gives"""
+        s2 = make_sim(case["engine"], circuit, 0)
+        ref = py_probs(spec_amp, m)
+        whole = bsd_to_dict(s2.probs(build_sv(terms)))
+        tol = 1e-7 + 2 * slack
+        keys = set(ref) | set(whole)
+        if any(abs(whole.get(k, 0.0) - ref.get(k, 0.0)) > tol + ploc.get(k, 0.0) for k in keys):
+            return True
+        if len(terms) == 1:
+            asbs = bsd_to_dict(make_sim(case["engine"], circuit, 0).probs(build_bs(terms[0]["state"])))
+            if any(abs(whole.get(k, 0.0) - asbs.get(k, 0.0)) > tol for k in set(whole) | set(asbs)):
+                return True
+        if t is not None:
+            pt = float(make_sim(case["engine"], circuit, 0).probability(build_sv(terms), pcvl.BasicState(t)))
+            if abs(pt - ref.get(tuple(t), 0.0)) > tol + ploc.get(tuple(t), 0.0):
+                return True
+        return False
+
+    d = cmp_dist(obs, exact_dist(rep["entry"]), extra=ploc, slack=slack)
+    if d:
+        record("sv-probs-entry", f"Simulator.probs({sv})[{d[0]}] = {d[1]!r}, expected {d[2]!r} "
+               f"({rep['entryBranch']} branch)", spec_ok, prop_entry())
+    for t, p in rep["probabilitySV"]:
+        e = float(Fraction(p))
+        tol = core.TOL * (1 + abs(e)) + ploc.get(tuple(t), 0.0) + 2 * slack
+        o = float(sim.probability(build_sv(terms), pcvl.BasicState(t)))
+        # an annotated output object: the code clears its annotations, the requested occupation is what counts
+        o2 = float(sim.probability(build_sv(terms), build_bs([[9] * k for k in t]))) if sum(t) else o
+        chk.branch("sv-probability-zero-outcome" if e == 0 else "sv-probability-nonzero-outcome")
+        if sum(t) not in ns:
+            chk.branch("sv-probability-other-photon-number")
+        if abs(o - e) > tol or abs(o2 - e) > tol:
+            which = "" if abs(o - e) > tol else " (annotated output object)"
+            record("sv-probability-entry", f"Simulator.probability({sv}, {t}){which} = {(o if not which else o2)!r}, "
+                   f"expected {e!r}", spec_ok, prop_entry(t), {"pout": t})
             break
     for out, (num, tf) in zip(case["outs"], rep["pa"]):
         ob = build_bs(out)
@@ -2229,7 +2293,9 @@ def run(chk: core.Check):
                 "measured mixture); Simulator.evolve is judged with the model's bound on the native cut (lossAt); states mixing "
                 "annotated and un-annotated photons (1-3 annotations, 35% un-annotated photons) through the kinds bs / sv / svd "
                 "(precision 0 and default), mixed output states for prob_amplitude; kind keys: sequences of 3-8 set / += / add / "
-                "read operations on a real SVDistribution with 2-3 components in six scalings")
+                "read operations on a real SVDistribution with 2-3 components in six scalings; 25% of the sv cases are ONE component "
+                "with a complex coefficient (probs(StateVector) dispatches it to probs(BasicState)); probability(StateVector, t) "
+                "for 9 occupations per sv case (possible, impossible, another photon number), plain and annotated output object")
     chk.assumptions = [
         "the circuit's matrix is the one compute_unitary() reports (C01/C14); the backends return the boson-sampling "
         "amplitudes of one group of indistinguishable photons (C02)",
@@ -2278,7 +2344,10 @@ def run(chk: core.Check):
                              "mixed-out", "mixed-sv", "mixed-svd-fast", "mixed-svd-generic",
                              "mixed-svd-fast-default-precision", "mixed-svd-generic-default-precision",
                              "keys", "keys-unnormalised-existing-iadd", "keys-unnormalised-existing-read",
-                             "keys-unnormalised-existing-set"]
+                             "keys-unnormalised-existing-set",
+                             "sv-one-component", "sv-several-components", "sv-one-component-multi-tag",
+                             "sv-probability-zero-outcome", "sv-probability-nonzero-outcome",
+                             "sv-probability-other-photon-number"]
     rng = chk.rng
     n_lean = chk.pick(4, 8)
     drivers = [core.LeanDriver("C03") for _ in range(n_lean)]
